@@ -24,6 +24,7 @@ APPEND = {
     'C20-2': ('demo_test.rs', 'src/progress_fancy.rs', 'c20_2_demo'),
     'C12-2': ('depfile_truncated_test.rs', 'src/depfile.rs', 'c12_truncated'),
     'C15-3': ('depfile_leading_backslash_test.rs', 'src/depfile.rs', 'c15_3'),
+    'C20-4': ('progress_bar_width_tests.rs', 'src/progress_fancy.rs', 'bar_width_demo'),
 }
 # shell demonstrations taking the n2 binary
 SHELL = {'C02-1': 'demo.sh', 'C02-2': 'demo.sh', 'C18-1': 'demo.sh', 'C18-2': 'demo.sh', 'C19-2': 'demo.sh', 'C02-3': 'demo.sh'}
